@@ -431,8 +431,10 @@ double Integrate_MC_Vegas(std::function<double(std::vector<double>&, const doubl
 			}
 			f2b = sqrt(f2b * npg);
 			f2b = (f2b - fb) * (f2b + fb);
-			if(f2b <= 0.0)
-				f2b = TINY;
+			// The variance estimate of a cell is floored relative to the cell's own sum (an absolute floor makes the weighting of the
+			// iterations depend on the scale of the integrand); a difference at rounding level is no variance at all.
+			if(f2b <= 64.0 * std::numeric_limits<double>::epsilon() * fb * fb)
+				f2b = std::max(TINY * fb * fb, 1.0e-100);
 			ti += fb;
 			tsi += f2b;
 			if(mds < 0)
